@@ -46,6 +46,7 @@ class Acct:
         self.problems = []          # (key, where, text)
         self.paths = 0
         self.summaries = {}
+        self._summarising = set()
         self.bitatoms = {}          # atom -> ("xorm"|"orm", a, b, k)
         self.nfresh = 0
         self.stats = dict(loops=0, iteration_paths=0, stores=0, obligations=0)
@@ -249,8 +250,14 @@ class Acct:
 
     # ---- loop progress rule ------------------------------------------------------------------------------------------------------
     def loop_summary(self, h):
+        """progress rule of the loop headed by h, verified over all acyclic paths of one iteration (inner loops are summarised in turn).
+        Modes: the counter decreases (and stays >= lo: 0 for guarded loops, 1 for do-while loops) or increases towards a bound.
+        The destination position is a pointer header phi, or -- for `for (i = ..) dp[i] = ..` -- the linear expression of the first store."""
         if h in self.summaries:
             return self.summaries[h]
+        if h in self._summarising:
+            raise Broken("irreducible nesting at loop %s" % h)
+        self._summarising.add(h)
         fn = self.fn
         L = fn.loops[h]["_set"]
         phis = [i for i in fn.blocks[h]["insts"] if i["op"] == "phi"]
@@ -265,79 +272,127 @@ class Acct:
             raise Broken("loop %s of %s carries a pointer of unknown origin" % (h, fn.name))
         result = None
         last_notes = []
-        for lo in (0, 1):
+        catom = "c@" + h
+        for (mode, lo) in (("dec", 0), ("dec", 1), ("inc", 0)):
             saved = list(self.problems)
-            c = Lin.atom("c@" + h)
+            c = Lin.atom(catom)
             env0 = {cphi["id"]: c}
             for p in pphis:
                 env0[p["id"]] = (roots[p["id"]], Lin.atom("p@" + p["id"]))
             paths = []          # (facts, env, writes, from block)
-            self._iter_paths(h, h, None, dict(env0), [c - Lin.const(lo)], [], paths, L, first=True)
+            facts0 = [c - Lin.const(lo)]
+            dd_ = [p for p in pphis if roots[p["id"]] == "D"]
+            ss_ = [p for p in pphis if roots[p["id"]] == "S"]
+            if dd_ and ss_:
+                # the summary is used only where the two cursors are in step at the loop head (checked by _enter_loop at every application)
+                e_ = env0[dd_[0]["id"]][1] - env0[ss_[0]["id"]][1]
+                facts0 += [e_, -e_]
+            self._walk(h, None, dict(env0), facts0, [], None, 0, stop=(h, L, paths))
             ok = True
             strides = {}
             notes = []
+            sgn = 1 if mode == "dec" else -1
             # strides from paths with constant progress
             for (facts, env, writes, bb) in paths:
                 c2 = self._incoming(cphi, bb, env, facts)
-                d = c - c2
+                d = (c - c2).scale(sgn)
                 if d.is_const() and d.c != 0:
                     for p in pphis:
                         p2 = self._incoming(p, bb, env, facts)
                         dp = p2[1] - env0[p["id"]][1]
                         if not dp.is_const():
                             ok = False; notes.append("cursor %s moves by a non-constant amount" % p["id"]); continue
-                        s = dp.c / d.c
-                        if strides.setdefault(p["id"], s) != s:
+                        s_ = dp.c / d.c
+                        if strides.setdefault(p["id"], s_) != s_:
                             ok = False; notes.append("cursor %s moves by different amounts per count on different paths" % p["id"])
+            dph = [p for p in pphis if roots[p["id"]] == "D"]
+            sph = [p for p in pphis if roots[p["id"]] == "S"]
+            if len(dph) > 1:
+                raise Broken("loop %s of %s carries %d destination cursors" % (h, fn.name, len(dph)))
+            pos_tpl = spos_tpl = None          # index mode: position of the first store (and of its source element) as a function of the counter
+            step_bytes = None
             for (facts, env, writes, bb) in paths:
                 self.stats["iteration_paths"] += 1
                 c2 = self._incoming(cphi, bb, env, facts)
-                d = c - c2
+                d = (c - c2).scale(sgn)
                 if not entails(facts, d - Lin.const(1)):
-                    ok = False; notes.append("no progress: the counter does not decrease on the path through %s" % bb)
-                if not entails(facts, c2 - Lin.const(lo)):
+                    ok = False; notes.append("no progress: the counter does not %s on the path through %s" % ("decrease" if mode == "dec" else "increase", bb))
+                if mode == "dec" and not entails(facts, c2 - Lin.const(lo)):
                     ok = False; notes.append("counter may drop below %d on the path through %s" % (lo, bb))
                 for p in pphis:
-                    s = strides.get(p["id"])
+                    s_ = strides.get(p["id"])
                     p2 = self._incoming(p, bb, env, facts)
-                    if s is None:
+                    if s_ is None:
                         ok = False; notes.append("no stride for cursor %s" % p["id"]); continue
-                    if not _eq(facts, p2[1] - env0[p["id"]][1], d.scale(s)):
+                    if not _eq(facts, p2[1] - env0[p["id"]][1], d.scale(s_)):
                         ok = False
-                        notes.append("on the path through %s cursor %s moves by %s for a counter decrease of %s (expected %s per count)" % (bb, p["id"], p2[1] - env0[p["id"]][1], d, s))
+                        notes.append("on the path through %s cursor %s moves by %s for a counter change of %s (expected %s per count)" % (bb, p["id"], p2[1] - env0[p["id"]][1], d, s_))
                 # tiling of the iteration's stores
-                dph = [p for p in pphis if roots[p["id"]] == "D"]
-                if len(dph) != 1:
-                    raise Broken("loop %s of %s carries %d destination cursors" % (h, fn.name, len(dph)))
-                P0 = env0[dph[0]["id"]][1]
-                P1 = self._incoming(dph[0], bb, env, facts)[1]
-                lo_, hi_ = (P0, P1) if strides.get(dph[0]["id"], 1) > 0 else (P1, P0)
+                if dph:
+                    P0 = env0[dph[0]["id"]][1]
+                    P1 = self._incoming(dph[0], bb, env, facts)[1]
+                    fwd = strides.get(dph[0]["id"], 1) > 0
+                else:
+                    if not writes:
+                        ok = False; notes.append("an iteration (path through %s) stores nothing into dest" % bb); continue
+                    first = min(writes, key=lambda w: (w[0] - writes[0][0]).c if (w[0] - writes[0][0]).is_const() else 0)
+                    P0 = first[0]
+                    if catom not in P0.t:
+                        ok = False; notes.append("the stores do not move with the loop counter (path through %s)" % bb); continue
+                    P1 = P0.subst(catom, c2)
+                    fwd = (P0.t[catom] > 0) == (mode == "inc")
+                    if pos_tpl is None:
+                        pos_tpl = P0
+                        step_bytes = P0.t[catom]
+                    elif pos_tpl != P0:
+                        ok = False; notes.append("different iterations store at differently computed positions"); continue
+                    if not fwd:
+                        # a descending index: the iteration's stores lie below P0's successor; normalise to [lo, hi)
+                        pass
+                lo_, hi_ = (P0, P1) if fwd else (P1, P0)
+                if not dph and not fwd:
+                    # index running downwards: the element at index c is [P0, P0 + size): shift the tile by one element
+                    size0 = (first[1] - first[0])
+                    lo_, hi_ = P1 + size0, P0 + size0
                 ws = sorted(writes, key=lambda w: (w[0] - P0).c if (w[0] - P0).is_const() else 0)
                 cur = lo_
+                src0 = None
                 for (a, b, val, inst) in ws:
                     if not (a - P0).is_const():
                         ok = False; notes.append("store at a non-constant distance from the cursor (%s)" % fn.loc(inst)); break
                     if not _eq(facts, a, cur):
                         ok = False; notes.append("stores of one iteration leave a gap or overlap at %s (path through %s)" % (fn.loc(inst), bb)); break
                     cur = b
-                    if self.src is not None:
-                        sph = [p for p in pphis if roots[p["id"]] == "S"]
-                        if len(sph) != 1 or not (isinstance(val, tuple) and val[0] == "ld" and val[1] == "S" and val[3] == inst["size"]
-                                                 and (val[2] - env0[sph[0]["id"]][1]) == (a - P0)):
+                    if self.src is not None and val != "loop":
+                        good = isinstance(val, tuple) and val[0] == "ld" and val[1] == "S" and val[3] == inst["size"]
+                        if good and sph:
+                            good = (val[2] - env0[sph[0]["id"]][1]) == (a - P0)
+                        elif good:
+                            if src0 is None:
+                                src0 = val[2] - (a - P0)
+                            good = (val[2] - (a - P0)) == src0
+                        if not good:
                             ok = False; notes.append("the value stored at %s is not the source element at the same offset" % fn.loc(inst)); break
                 else:
                     if not _eq(facts, cur, hi_):
-                        ok = False; notes.append("the stores of one iteration cover %s bytes but the cursor moves by %s (path through %s)" % (cur - lo_, hi_ - lo_, bb))
+                        ok = False; notes.append("the stores of one iteration cover %s bytes but the position moves by %s (path through %s)" % (cur - lo_, hi_ - lo_, bb))
+                if not dph and self.src is not None and src0 is not None:
+                    if spos_tpl is None:
+                        spos_tpl = src0
+                    elif spos_tpl != src0:
+                        ok = False; notes.append("different iterations read differently computed source positions")
             wrapped = [t for (k, w, t) in self.problems[len(saved):]]
             if ok and paths and not wrapped:
-                result = dict(counter=cphi["id"], lo=lo, strides=strides, roots=roots, paths=len(paths))
+                result = dict(counter=cphi["id"], mode=mode, lo=lo, strides=strides, roots=roots, paths=len(paths), catom=catom,
+                              pos=pos_tpl, spos=spos_tpl, step=step_bytes)
                 break
             self.problems = saved          # problems of a failed attempt are folded into the loop's own report
-            last_notes = last_notes + ["[assuming count >= %d at the loop head] " % lo + x for x in notes + wrapped]
+            last_notes = last_notes + ["[counter %s, >= %d at the loop head] " % ("decreasing" if mode == "dec" else "increasing", lo) + x for x in notes + wrapped]
         if result is None:
             self.problem("loop-progress", h, "%s, loop %s: %s" % (fn.name, h, "; ".join(dict.fromkeys(last_notes)) or "no iteration path"))
-            result = dict(counter=cphi["id"], lo=0, strides={p["id"]: 0 for p in pphis}, roots=roots, paths=0, failed=True)
+            result = dict(counter=cphi["id"], mode="dec", lo=0, strides={p["id"]: 0 for p in pphis}, roots=roots, paths=0, failed=True, catom=catom, pos=None, spos=None, step=None)
         self.stats["loops"] += 1
+        self._summarising.discard(h)
         self.summaries[h] = result
         return result
 
@@ -345,28 +400,23 @@ class Acct:
         o = next(x["v"] for x in phi["incoming"] if x["bb"] == bb)
         return self.val(o, env, facts)
 
-    def _iter_paths(self, h, bb, pred, env, facts, writes, out, L, first=False, exits=None):
-        fn = self.fn
-        if len(out) > 400:
-            raise Broken("more than 400 iteration paths in loop %s" % h)
-        env = dict(env); facts = list(facts); writes = list(writes)
-        for i in fn.blocks[bb]["insts"]:
-            if i["op"] == "phi":
-                if bb != h:
-                    inc = next((x["v"] for x in i["incoming"] if x["bb"] == pred), None)
-                    env[i["id"]] = self.val(inc, env, facts) if inc is not None else None
-                continue
-            self.exec_inst(i, env, facts, writes)
-        for (sc, new) in self._succs(bb, env, facts):
-            if new is None:
-                continue
-            f2 = facts + new
-            if sc == h:
-                out.append((f2, env, writes, bb))
-            elif sc in L:
-                self._iter_paths(h, sc, bb, env, f2, writes, out, L, exits=exits)
-            elif exits is not None:
-                exits.append((f2, env, writes, bb, sc))
+    def _instantiate(self, tpl, catom, cval, env, facts):
+        """a position template of a loop summary in the context of the walk: the counter atom becomes cval, atoms of values defined outside
+        the loop become their values here"""
+        out = Lin.const(tpl.c)
+        for a, k in tpl.t.items():
+            if a == catom:
+                out = out + cval.scale(k)
+            elif a.startswith("ext:"):
+                v = self.val({"k": "v", "id": a[4:]}, env, facts)
+                if isinstance(v, tuple) and v[0] in self.rootnames:
+                    v = v[1]
+                if not isinstance(v, Lin):
+                    raise Broken("value %s used by a summarised loop is not linear here" % a[4:])
+                out = out + v.scale(k)
+            else:
+                out = out + Lin.atom(a).scale(k)
+        return out
 
     def _succs(self, bb, env, facts):
         fn = self.fn
@@ -427,89 +477,139 @@ class Acct:
     # ---- the function walk -------------------------------------------------------------------------------------------------------
     def run(self):
         fn = self.fn
-        for h, L in fn.loops.items():
-            for h2, L2 in fn.loops.items():
-                if h != h2 and h2 in L["_set"]:
-                    raise Broken("nested loops in %s" % fn.name)
         self._walk(fn.entry, None, {}, list(self.base_facts) + [self.N], [], None, 0)
         return dict(function=fn.name, paths=self.paths, loops=self.stats["loops"], iteration_paths=self.stats["iteration_paths"],
                     store_sites_walked=self.stats["stores"], wrap_obligations=self.stats["obligations"],
-                    loop_rules={h: dict(counter=s["counter"], min_count_at_header=s["lo"], bytes_per_count={k: str(v) for k, v in s["strides"].items()},
-                                        iteration_paths=s["paths"]) for h, s in self.summaries.items()},
+                    loop_rules={h: dict(counter=s["counter"], counter_direction=s["mode"], min_count_at_header=s["lo"], bytes_per_count={k: str(v) for k, v in s["strides"].items()},
+                                        indexed_position=repr(s["pos"]) if s.get("pos") is not None else None, iteration_paths=s["paths"]) for h, s in self.summaries.items()},
                     problems=[dict(key=k, where=w, text=t) for k, w, t in self.problems])
 
-    def _walk(self, bb, pred, env, facts, writes, final_of, depth):
+    def _enter_loop(self, bb, pred, env, facts, writes):
+        """apply the summary of the loop headed by bb: returns the variants (env, facts, writes) of 'an unknown number of iterations has
+        been executed and the loop head is reached once more'"""
         fn = self.fn
-        if self.paths > self.max_paths or depth > 400:
-            raise Broken("more than %d paths in %s" % (self.max_paths, fn.name))
-        env = dict(env); facts = list(facts); writes = list(writes)
+        S = self.loop_summary(bb)
         blk = fn.blocks[bb]
-        is_header = bb in fn.loops and pred is not None and pred not in fn.loops[bb]["_set"] or (bb in fn.loops and pred is None)
-        if is_header:
-            S = self.loop_summary(bb)
-            L = fn.loops[bb]["_set"]
-            phis = [i for i in blk["insts"] if i["op"] == "phi"]
-            cphi = next(p for p in phis if p["id"] == S["counter"])
-            c_in = self._incoming(cphi, pred, env, facts)
-            if not isinstance(c_in, Lin):
-                raise Broken("loop %s entered with a non-linear count" % bb)
+        phis = [i for i in blk["insts"] if i["op"] == "phi"]
+        cphi = next(p for p in phis if p["id"] == S["counter"])
+        c_in = self._incoming(cphi, pred, env, facts)
+        if not isinstance(c_in, Lin):
+            raise Broken("loop %s entered with a non-linear count" % bb)
+        ins = {}
+        for p in phis:
+            if p["id"] == S["counter"]:
+                continue
+            pv = self._incoming(p, pred, env, facts)
+            if not (isinstance(pv, tuple) and pv[0] in self.rootnames):
+                raise Broken("loop %s entered with a cursor of unknown origin" % bb)
+            ins[p["id"]] = pv
+        dcur = [k for k, v in ins.items() if v[0] == "D"]
+        scur = [k for k, v in ins.items() if v[0] == "S"]
+        if self.src is not None and dcur and scur and not _eq(facts, ins[dcur[0]][1], ins[scur[0]][1]):
+            self.problem("cursors-out-of-step", bb, "%s: at the loop %s the destination cursor is at offset %s but the source cursor at %s" % (fn.name, bb, ins[dcur[0]][1], ins[scur[0]][1]))
+        line = {"line": blk["insts"][0].get("line")}
+        variants = []
+        if S["mode"] == "dec":
             if not entails(facts, c_in - Lin.const(S["lo"])):
                 self.problem("loop-entered-with-zero-count", bb, "%s: the loop at %s is entered with count %s, which is not known to be >= %d here: its counter is decremented before it is tested and wraps around"
                              % (fn.name, bb, c_in, S["lo"]))
-                facts.append(c_in - Lin.const(S["lo"]))
+                facts = facts + [c_in - Lin.const(S["lo"])]
             self.nfresh += 1
             cL = Lin.atom("cL%d@%s" % (self.nfresh, bb))
-            facts += [cL - Lin.const(S["lo"]), c_in - cL]
-            done = c_in - cL
-            ins = {}
-            for p in phis:
-                if p["id"] == S["counter"]:
-                    continue
-                pv = self._incoming(p, pred, env, facts)
-                if not (isinstance(pv, tuple) and pv[0] in self.rootnames):
-                    raise Broken("loop %s entered with a cursor of unknown origin" % bb)
-                ins[p["id"]] = pv
-            dcur = [k for k, v in ins.items() if v[0] == "D"]
-            scur = [k for k, v in ins.items() if v[0] == "S"]
-            if self.src is not None and dcur and scur and not _eq(facts, ins[dcur[0]][1], ins[scur[0]][1]):
-                self.problem("cursors-out-of-step", bb, "%s: at the loop %s the destination cursor is at offset %s but the source cursor at %s" % (fn.name, bb, ins[dcur[0]][1], ins[scur[0]][1]))
-            env[S["counter"]] = cL
-            for k, pv in ins.items():
-                s = S["strides"].get(k, 0)
-                adv = done.scale(s)
-                if pv[0] == "D":
-                    a, b = (pv[1], pv[1] + adv) if s >= 0 else (pv[1] + adv, pv[1])
-                    writes.append((a, b, "loop", {"line": fn.blocks[bb]["insts"][0].get("line")}))
-                env[k] = (pv[0], pv[1] + adv)
-            final_of = bb
-            insts = [i for i in blk["insts"] if i["op"] != "phi"]
+            cases = [(cL, facts + [cL - Lin.const(S["lo"]), c_in - cL], c_in - cL)]
         else:
-            insts = blk["insts"]
-            for i in insts:
-                if i["op"] == "phi":
+            # an increasing counter: either no iteration was executed, or the previous value of the counter satisfied the loop's own
+            # continuation test (evaluated below with the counter one step back)
+            self.nfresh += 1
+            cL = Lin.atom("cL%d@%s" % (self.nfresh, bb))
+            cases = [(c_in, list(facts), Lin.const(0)), (cL, facts + [cL - c_in - Lin.const(1)], cL - c_in)]
+        for k_, (cv, f2, done) in enumerate(cases):
+            e2 = dict(env); w2 = list(writes); f2 = list(f2)
+            e2[S["counter"]] = cv
+            for k, pv in ins.items():
+                s_ = S["strides"].get(k, 0)
+                adv = done.scale(s_)
+                if pv[0] == "D":
+                    a, b = (pv[1], pv[1] + adv) if s_ >= 0 else (pv[1] + adv, pv[1])
+                    w2.append((a, b, "loop", line))
+                e2[k] = (pv[0], pv[1] + adv)
+            if not dcur and S.get("pos") is not None:
+                p_in = self._instantiate(S["pos"], S["catom"], c_in, e2, f2)
+                p_L = self._instantiate(S["pos"], S["catom"], cv, e2, f2)
+                up = (S["step"] > 0) == (S["mode"] == "inc")
+                w2.append(((p_in, p_L) if up else (p_L, p_in)) + ("loop", line))
+                if self.src is not None and S.get("spos") is not None:
+                    s_in = self._instantiate(S["spos"], S["catom"], c_in, e2, f2)
+                    if not _eq(f2, s_in, p_in):
+                        self.problem("cursors-out-of-step", bb, "%s: at the loop %s the stores start at destination offset %s but the loads at source offset %s" % (fn.name, bb, p_in, s_in))
+            if S["mode"] == "inc" and k_ == 1:
+                # previous iteration: header evaluated with the counter one step back must have stayed in the loop
+                prev = dict(e2); prev[S["counter"]] = cv - Lin.const(1)
+                pf = list(f2); dummy = []
+                for i in blk["insts"]:
+                    if i["op"] != "phi":
+                        self.exec_inst(i, prev, pf, dummy)
+                t = fn.term(bb)
+                if t["op"] == "br" and "cond" in t:
+                    Lset = fn.loops[bb]["_set"]
+                    side = True if (t["t"] in Lset and t["f"] not in Lset) else (False if (t["f"] in Lset and t["t"] not in Lset) else None)
+                    if side is not None:
+                        new = self.assume(self.val(t["cond"], prev, pf), side, pf)
+                        if new is None:
+                            continue
+                        f2 = pf + new
+            variants.append((e2, f2, w2))
+        return variants
+
+    def _walk(self, bb, pred, env, facts, writes, final_of, depth, stop=None):
+        """walk the function (stop is None) or the body of the loop being summarised (stop = (header, blocks, sink): paths that come back to
+        the header are recorded, paths that leave the loop are dropped)"""
+        fn = self.fn
+        if self.paths > self.max_paths or depth > 400 or (stop is not None and len(stop[2]) > 400):
+            raise Broken("more than %d paths in %s" % (self.max_paths, fn.name))
+        blk = fn.blocks[bb]
+        own_header = stop is not None and bb == stop[0] and pred is None
+        is_header = bb in fn.loops and not own_header and (pred is None or pred not in fn.loops[bb]["_set"])
+        if is_header:
+            for (e2, f2, w2) in self._enter_loop(bb, pred, env, facts, writes):
+                self._block(bb, pred, e2, f2, w2, (final_of or ()) + (bb,), depth, stop, skip_phis=True)
+            return
+        self._block(bb, pred, dict(env), list(facts), list(writes), final_of, depth, stop, skip_phis=own_header)
+
+    def _block(self, bb, pred, env, facts, writes, final_of, depth, stop, skip_phis):
+        fn = self.fn
+        blk = fn.blocks[bb]
+        for i in blk["insts"]:
+            if i["op"] == "phi":
+                if not skip_phis:
                     inc = next((x["v"] for x in i["incoming"] if x["bb"] == pred), None)
                     env[i["id"]] = self.val(inc, env, facts) if inc is not None else None
-        for i in insts:
-            if i["op"] == "phi":
                 continue
             n0 = len(writes)
             self.exec_inst(i, env, facts, writes)
-            if len(writes) > n0 and self.src is not None:
+            if stop is None and len(writes) > n0 and self.src is not None:
                 a, b, val, inst = writes[-1]
                 if not (isinstance(val, tuple) and val[0] == "ld" and val[1] == "S" and val[3] == inst["size"] and _eq(facts, val[2], a)):
                     self.problem("wrong-source-element", fn.loc(inst), "%s: the value stored at destination offset %s is not the source element at that offset" % (fn.name, a))
         t = fn.term(bb)
         if t["op"] == "ret":
-            self.paths += 1
-            self._check_chain(writes, facts, bb)
+            if stop is None:
+                self.paths += 1
+                self._check_chain(writes, facts, bb)
             return
         for (sc, new) in self._succs(bb, env, facts):
             if new is None:
                 continue
-            if final_of is not None and sc == final_of:
-                continue          # the last iteration leaves the loop
-            nf = final_of if (final_of is not None and sc in fn.loops[final_of]["_set"]) else None
-            self._walk(sc, bb, env, facts + new, writes, nf, depth + 1)
+            if final_of and sc in final_of:
+                continue          # the last iteration of a summarised loop leaves it (final_of: the loops whose last iteration is being walked)
+            if stop is not None:
+                if sc == stop[0]:
+                    stop[2].append((facts + new, env, writes, bb))
+                    continue
+                if sc not in stop[1]:
+                    continue
+            nf = tuple(h_ for h_ in (final_of or ()) if sc in fn.loops[h_]["_set"]) or None
+            self._walk(sc, bb, env, facts + new, writes, nf, depth + 1, stop)
 
     def _check_chain(self, writes, facts, bb):
         fn = self.fn
